@@ -154,6 +154,9 @@ class Interp:
         from . import npmodel
         if v is None:
             return False
+        h = getattr(v, "py_truth", None)
+        if h is not None:
+            return h(self)
         if isinstance(v, bool) or isinstance(v, z3.BoolRef):
             return v
         if is_int(v):
@@ -948,6 +951,11 @@ class Interp:
             return And(a.cls is b.cls, eq(a.val, b.val))
         if isinstance(a, bool) and isinstance(b, bool):
             return a == b
+        h = getattr(a, "py_is", None) or getattr(b, "py_is", None)
+        if h is not None and a is not b:
+            r = h(self, a, b)
+            if r is not None:
+                return r
         return a is b
 
     def equals(self, a, b):
@@ -995,6 +1003,9 @@ class Interp:
         ta, tb = self.type_of(a), self.type_of(b)
         if ta is not None and tb is not None and ta is not tb and not (ta.is_subclass(tb) or tb.is_subclass(ta)):
             return False
+        h = getattr(a, "py_equals", None) or getattr(b, "py_equals", None)
+        if h is not None:
+            return h(self, a, b)
         raise OutOfReach(f"== on {type(a).__name__}, {type(b).__name__}")
 
     def as_seq(self, s):
